@@ -895,3 +895,77 @@ func (t *Timer) Reset(d time.Duration) bool {
 
 // After replaces time.After.
 func After(d time.Duration) <-chan time.Time { return NewTimer(d).C }
+
+// ---------------------------------------------------------------------------
+// Cond replaces sync.Cond.
+
+type Cond struct {
+	L    sync.Locker
+	real *sync.Cond
+	ws   []chan struct{}
+}
+
+func NewCond(l sync.Locker) *Cond { return &Cond{L: l, real: sync.NewCond(l)} }
+
+func (c *Cond) Wait() {
+	s := Active()
+	if s == nil {
+		c.real.Wait()
+		return
+	}
+	w := make(chan struct{})
+	c.ws = append(c.ws, w)
+	c.L.Unlock()
+	BlockOn("cond.wait", w)
+	c.L.Lock()
+}
+
+func (c *Cond) Signal() {
+	s := Active()
+	if s == nil {
+		c.real.Signal()
+		return
+	}
+	if len(c.ws) == 0 {
+		return
+	}
+	k := 0
+	if len(c.ws) > 1 {
+		k = s.Ch.Draw(len(c.ws), "cond.signal")
+	}
+	w := c.ws[k]
+	c.ws = append(c.ws[:k], c.ws[k+1:]...)
+	close(w)
+}
+
+func (c *Cond) Broadcast() {
+	if Active() == nil {
+		c.real.Broadcast()
+		return
+	}
+	for _, w := range c.ws {
+		close(w)
+	}
+	c.ws = nil
+}
+
+// Dial / DialTimeout / DialerDial replace the context-free dial entry points.
+func Dial(site, network, addr string) (net.Conn, error) {
+	return DialContext(site, &net.Dialer{}, context.Background(), network, addr)
+}
+
+func DialTimeout(site, network, addr string, d time.Duration) (net.Conn, error) {
+	ctx, cancel := context.WithTimeout(context.Background(), d)
+	defer cancel()
+	return DialContext(site, &net.Dialer{}, ctx, network, addr)
+}
+
+func DialerDial(site string, d *net.Dialer, network, addr string) (net.Conn, error) {
+	ctx := context.Background()
+	if d.Timeout > 0 {
+		var cancel context.CancelFunc
+		ctx, cancel = context.WithTimeout(ctx, d.Timeout)
+		defer cancel()
+	}
+	return DialContext(site, d, ctx, network, addr)
+}
